@@ -50,6 +50,10 @@ module Little :
 
 val add : nat -> nat -> nat
 
+val sub : nat -> nat -> nat
+
+val bool_dec : bool -> bool -> bool
+
 val eqb : bool -> bool -> bool
 
 module Nat :
@@ -61,13 +65,21 @@ module Nat :
   val ltb : nat -> nat -> bool
  end
 
+val removelast : 'a1 list -> 'a1 list
+
 val rev0 : 'a1 list -> 'a1 list
+
+val list_eq_dec : ('a1 -> 'a1 -> bool) -> 'a1 list -> 'a1 list -> bool
 
 val map : ('a1 -> 'a2) -> 'a1 list -> 'a2 list
 
 val fold_left : ('a1 -> 'a2 -> 'a1) -> 'a2 list -> 'a1 -> 'a1
 
+val fold_right : ('a2 -> 'a1 -> 'a1) -> 'a1 -> 'a2 list -> 'a1
+
 val filter : ('a1 -> bool) -> 'a1 list -> 'a1 list
+
+val firstn : nat -> 'a1 list -> 'a1 list
 
 type positive =
 | XI of positive
@@ -196,6 +208,8 @@ val one : ascii
 
 val shift : bool -> ascii -> ascii
 
+val ascii_dec : ascii -> ascii -> bool
+
 val eqb0 : ascii -> ascii -> bool
 
 val ascii_of_pos : positive -> ascii
@@ -212,11 +226,15 @@ type string =
 | EmptyString
 | String of ascii * string
 
+val string_dec : string -> string -> bool
+
 val eqb1 : string -> string -> bool
 
 val compare1 : string -> string -> comparison
 
 val ltb0 : string -> string -> bool
+
+val leb0 : string -> string -> bool
 
 val append : string -> string -> string
 
@@ -340,6 +358,9 @@ type err =
 | EDeserialize of string * err
 | EYamlShape of string
 | EMetaParts
+| EDuplicate of string * string * string * string
+| ENodeFailed of string * err
+| EConfig of string
 | EOther of string
 
 type 'a res =
@@ -647,6 +668,116 @@ val canon_res : ('a1 -> string) -> 'a1 res -> string
 
 val canon_token : token -> string
 
+val count_dots : string -> nat * string
+
+val drop_last : nat -> string list -> string list
+
+val abs_class_name : string list -> string -> string
+
+val rindex_dot : string -> nat -> nat option -> nat option
+
+val take_str : nat -> string -> string
+
+val drop_str : nat -> string -> string
+
+val split_ext : string -> string * string option
+
+val is_yaml_ext : string option -> bool
+
+val last_seg : string list -> string
+
+val starts_with_underscore : string -> bool
+
+type ekind =
+| KNode
+| KClass
+
+type entity = { en_name : string; en_path : string list; en_loc : string list }
+
+val entity_of : ekind -> bool -> string list -> entity option
+
+val find_entity : string -> entity list -> entity option
+
+val kind_name : ekind -> string
+
+val discover_from :
+  ekind -> bool -> string list list -> entity list -> entity list res
+
+val discover : ekind -> bool -> string list list -> entity list res
+
+type ncfg = { c_ignore : bool; c_matches : string list; c_compose : bool;
+              c_literal_dots : bool }
+
+type node = { n_apps : rlist; n_classes : ulist; n_params : mapping;
+              n_loc : string list }
+
+val empty_node : node
+
+type cls_entry = { ce_name : string; ce_doc : yaml; ce_loc : string list }
+
+val find_class : string -> cls_entry list -> cls_entry option
+
+val y_field : string -> (yaml * yaml) list -> yaml option
+
+val y_strings : yaml list -> string list option
+
+val y_string_list : string -> yaml option -> string list res
+
+val node_of_yaml : string list -> yaml -> node res
+
+val read_class :
+  ncfg -> cls_entry list -> string list -> string -> node option res
+
+val merge_into : node -> node -> (node * node) res
+
+val include_name : nat -> mapping -> string -> string res
+
+val render_impl :
+  nat -> nat -> ncfg -> cls_entry list -> node -> string list -> node ->
+  ((node * string list) * node) res
+
+type nmeta = { m_name : string; m_uri : string; m_parts : string list }
+
+val as_reclass : ncfg -> nmeta -> mapping res
+
+val render_params : nat -> node -> node res
+
+val node_render :
+  nat -> nat -> ncfg -> cls_entry list -> node -> nmeta -> node res
+
+type node_entry = { ne_name : string; ne_path : string list; ne_doc : yaml }
+
+val find_node : string -> node_entry list -> node_entry option
+
+type nodeinfo = { ni_node : string; ni_name : string; ni_uri : string;
+                  ni_env : string; ni_apps : string list;
+                  ni_classes : string list; ni_params : mapping }
+
+val strip_ext_path : string list -> string list
+
+val render_node :
+  nat -> nat -> ncfg -> string -> node_entry list -> cls_entry list -> string
+  -> nodeinfo res
+
+val insert_sorted : string -> string list -> string list
+
+val sort_strings : string list -> string list
+
+type index = (string * string list) list
+
+val index_push : string -> string -> index -> index
+
+val index_sort : index -> index
+
+type inventory = { inv_apps : index; inv_classes : index;
+                   inv_nodes : (string * nodeinfo) list }
+
+val inv_step : inventory -> string -> nodeinfo -> inventory
+
+val inventory_of : (string * nodeinfo res) list -> inventory -> inventory res
+
+val empty_inventory : inventory
+
 val run_fuel : nat
 
 val merge_layers : yaml list -> mapping res
@@ -666,3 +797,42 @@ val run_list : string list -> string
 val tab : string
 
 val run_line : string -> string
+
+val inc_fuel : nat
+
+val p_bool : string -> bool option
+
+val p_file : string list -> ((string list * yaml option) * string list) option
+
+val p_files :
+  nat -> string list -> ((string list * yaml option) list * string list)
+  option
+
+val p_count_files :
+  string list -> ((string list * yaml option) list * string list) option
+
+val doc_of :
+  string list -> (string list * yaml option) list -> yaml option option
+
+val dir_doc : yaml
+
+val class_table : (string list * yaml option) list -> cls_entry list res
+
+val node_table :
+  bool -> (string list * yaml option) list -> node_entry list res
+
+val canon_nodeinfo : nodeinfo -> string
+
+val sort_index : index -> index
+
+val canon_index : index -> string
+
+val lookup_info : string -> (string * nodeinfo) list -> nodeinfo option
+
+val canon_inventory : inventory -> string
+
+val run_inv : string list -> string
+
+val run_abs : string list -> string
+
+val run_line2 : string -> string
